@@ -18,7 +18,7 @@ def configs(rng, tier):
             impls += [gen_impl.random_impl(rng, lib) for _ in range(nrand)]
             for im in impls:
                 cs.append({"kind": "actor", "lib": lib, "attr": gen_impl.actor_attr(lib, ch, debut=rng.random() < 0.3), "item": im["item"],
-                           "want": [ch if ch else None], "label": "actor lib=%s channel=%s" % (lib, ch)})
+                           "want": [ch if ch else None], "opts": [(None, ch)], "label": "actor lib=%s channel=%s" % (lib, ch)})
     # families: inherited and overridden member capacity
     for lib in ("std", "tokio", "async_std"):
         for fam_ch in (None, 0, 2, 3):
@@ -31,7 +31,7 @@ def configs(rng, tier):
                 want_u = (mem_ch if mem_ch else None) if mem_ch is not None else (fam_ch if fam_ch else None)
                 want_v = fam_ch if fam_ch else None
                 cs.append({"kind": "family", "lib": lib, "attr": ", ".join(fam + [m1, m2]), "item": gen_impl.probe_impl(lib)["item"],
-                           "want": [want_u, want_v], "label": "family lib=%s channel=%s member channel=%s" % (lib, fam_ch, mem_ch)})
+                           "want": [want_u, want_v], "opts": [(fam_ch, mem_ch), (fam_ch, None)], "label": "family lib=%s channel=%s member channel=%s" % (lib, fam_ch, mem_ch)})
     return cs
 
 
@@ -71,14 +71,19 @@ def run(rep):
         for j, m in enumerate(ms):
             terms.append(m)
             owners.append((c, j))
+    def nopt(x):
+        return "None" if x is None else "(Some %d%%N)" % x
     funs = [("wf", "wf_C08 {i}"), ("cap", "cap_of {i}"), ("search", "c08_search (elab {i}) {a}")]
-    res, mod = inst.coq_eval(PID, terms, funs, extra_imports="From IT Require Import Runtime.Explore.", per_inst_args=[coq_opt(c["want"][j]) for c, j in owners])
+    res, mod = inst.coq_eval(PID, terms, funs, extra_imports="From IT Require Import Runtime.Explore Gen.Channel.", per_inst_args=[coq_opt(c["want"][j]) for c, j in owners])
+    # the generator model (Gen/Channel.v) predicts the constructor of every instance from the options it was given
+    vals = inst.coq_values("C08_ctor", inst.HEADER + "From IT Require Import Gen.Channel.\nFrom ITG Require Import C08_inst.",
+                           [("m%d" % k, "ctor_matches inst_%d %s %s" % (k, nopt(c["opts"][j][0]), nopt(c["opts"][j][1]))) for k, (c, j) in enumerate(owners)])
     rep.checker_cmds.append("coqc generated/C08_inst.v; coqc generated/C08_oblig.v")
     good = []
     for k, ((c, j), r) in enumerate(zip(owners, res)):
         want = c["want"][j]
         ok_wf = rep.oblige(r["wf"] == "true")
-        ok_cap = rep.oblige(r["cap"] == ("None" if want is None else "Some %d" % want))
+        ok_cap = rep.oblige(r["cap"] == ("None" if want is None else "Some %d" % want)) and rep.oblige(vals["m%d" % k] == "true")
         rep.nontrivial.add((c["lib"], want, c["kind"], j))
         if k % 17 == 0:
             rep.sample({"config": c["label"], "attr": c["attr"], "model": j, "wf_C08": r["wf"], "cap_of": r["cap"], "expected_cap": want})
